@@ -31,12 +31,12 @@ type PropSpec struct {
 	RaceQuick, RaceThor int
 	// RaceFiles, when set, narrows the race pass to a subset of the property's anchored files (DESIGN 11.12 says why)
 	RaceFiles []string
-	Rule                string
-	Assume              []string
-	Profiles            []string // profiles cycled over jobs ("" = scenario decides from the tape)
-	Cells               int      // >0: enumerated matrix; job i gets knob cell = i % Cells
-	Real                string   // components running real code (default: the full-stack list)
-	Stub                string
+	Rule      string
+	Assume    []string
+	Profiles  []string // profiles cycled over jobs ("" = scenario decides from the tape)
+	Cells     int      // >0: enumerated matrix; job i gets knob cell = i % Cells
+	Real      string   // components running real code (default: the full-stack list)
+	Stub      string
 }
 
 var commonAssume = []string{
@@ -537,7 +537,17 @@ func writeEvidence(vdir string, spec *PropSpec, tier string, seed int64, a *agg,
 		evDir = filepath.Join(os.TempDir(), "verif-scratch-evidence")
 	}
 	os.MkdirAll(evDir, 0o755)
+	racePassNote := "none for this property (DESIGN 11.12)"
+	if spec.RaceQuick > 0 {
+		scope := "the files the property is anchored in"
+		if len(spec.RaceFiles) > 0 {
+			scope = strings.Join(spec.RaceFiles, ", ")
+		}
+		racePassNote = "after the main pass the same seeded scenarios ran on a worker built with the race detector (the simulator's own synchronisation hidden from it, the edges of the simulated locks declared); a data race between two accesses of emulator code that both lie in " + scope + " is a violation"
+	}
 	cov := map[string]interface{}{
+		"race_pass":                   racePassNote,
+		"scheduling_points":           "lock acquisitions, goroutine starts (yield after every go statement), entry of every Cond.Wait; lock-grant order and holds decided by the tape",
 		"evaluations":                 a.runs,
 		"distinct_nontrivial":         len(a.ntHashes),
 		"rule":                        spec.Rule,
